@@ -289,8 +289,10 @@ class Real:
         self.dflt_ctmo = int(re.search(r"def CONNECT_TIMEOUT : Nat := (\d+)", gen).group(1))
         self.dflt_rcmd = {}
 
-    def run(self, pers, argv, env, timeout=20, user=None, stdin_data=None):
+    def run(self, pers, argv, env, timeout=20, user=None, stdin_data=None, nofile=None):
         cmd = [self.bin[pers]] + argv
+        if nofile is not None:      # the process's limit of open files (soft = hard)
+            cmd = ["prlimit", "--nofile=%d:%d" % (nofile, nofile)] + cmd
         if user is not None:
             cmd = ["setpriv", "--reuid", str(user), "--regid", str(user), "--clear-groups"] + cmd
         for attempt in (0, 1):      # a time-out alone is tried once more before it is reported (loaded machine)
@@ -435,6 +437,8 @@ def load_replay(ctx):
         c.use = k["use"]
     if k.get("ckind"):
         c.ckind = k["ckind"]
+    if k.get("nofile"):
+        c.nofile = k["nofile"]
     c.group = "replay"
     ctx.log("replay of %s: %s env %s argv %s (signature %s)" % (os.path.basename(ctx.replay), c.pers, c.env, c.argv(),
                                                              rp.get("signature")))
@@ -718,6 +722,13 @@ def gen_use_cases(real, rng, quick):
             c = Case("dsh", (opts + base) if front else (base + opts), dict(env), [], kind="use")
             c.use, c.group = "fanout", "use"
             cases.append(c)
+    # ... and the same when few file descriptors are available (RLIMIT_NOFILE below 2 * fanout + 32, the number dsh() would
+    # like to have): the fanout in force is still the one that was given -- no silent reduction, no hang
+    for opts, env, nofile in (([("f", "2")], {}, 35), ([("f", "2")], {}, 33), ([("f", "2")], {}, 30), ([], {}, 40),
+                              ([], {"FANOUT": "3"}, 37), ([("f", "3")], {"FANOUT": "2"}, 36)):
+        c = Case("dsh", opts + [R, ("w", "h[0-6]")], dict(env), [], kind="use")
+        c.use, c.group, c.nofile = "fanout", "use", nofile
+        cases.append(c)
     # command time-out in use
     for opts, env in (([("u", "1")], {}), ([], {"PDSH_COMMAND_TIMEOUT": "1"}), ([("u", "9")], {"PDSH_COMMAND_TIMEOUT": "1"}),
                       ([("u", "1")], {"PDSH_COMMAND_TIMEOUT": "9"}), ([], {}), ([("u", "9"), ("u", "1")], {}), ([("u", "1"), ("u", "9")], {})):
@@ -739,7 +750,7 @@ def run_use_case(real, ctx, c, i, life=500):
         c.operands = [os.path.join(sdir, "conc.sh"), d, "%n", str(life)]
     else:
         c.operands = [os.path.join(sdir, "tmo.sh"), d, "%n", TMO_SLEEP]
-    rc, out, err_ = real.run("dsh", c.argv(), c.env, timeout=40)
+    rc, out, err_ = real.run("dsh", c.argv(), c.env, timeout=40, nofile=getattr(c, "nofile", None))
     obs = {}
     if c.use == "user":
         for f in os.listdir(d):
@@ -1232,7 +1243,7 @@ def run(ctx):
         umod = ctx.model("opt", "".join(model_line(real, c, c.argv()) + "\n" for c in ucases), args=["model", bits])
         for i, (c, m) in enumerate(zip(ucases, umod)):
             rc, out, err_, obs = ures[i]
-            if c.use == "fanout" and rc == 0 and m.startswith("ok ") and obs.get("peak") != int(m.split(" ")[1]):
+            if c.use == "fanout" and rc == 0 and m.startswith("ok ") and obs.get("peak") != min(int(m.split(" ")[1]), 7):
                 # fewer (or more) overlapping commands than the fanout in force: once more with longer-lived commands before
                 # it is reported (a loaded machine starts the commands further apart)
                 ures[i] = run_use_case(real, ctx, c, i, life=2000)
@@ -1243,7 +1254,7 @@ def run(ctx):
                 for host, own in own_users(c):
                     uspec_in.append((c, host, base + (" uown=" + hx(own) if own is not None else "") + " uobs=" + hx(obs.get(host, "\x00not-contacted"))))
             elif c.use == "fanout":
-                uspec_in.append((c, None, base + " peak=%d" % obs["peak"]))
+                uspec_in.append((c, None, base + " peak=%d ntargets=7" % obs["peak"]))
             else:
                 uspec_in.append((c, None, base + " cut=%d short=%d long=%d" % (1 if obs["ended"] < obs["started"] or not obs["started"] else 0,
                                                                                TMO_SHORT, TMO_LONG)))
@@ -1253,7 +1264,7 @@ def run(ctx):
             i = ucases.index(c)
             rc, out, err_, obs = ures[i]
             a = c.argv()
-            case = case_record(ctx, c, a, rc, err_, "use", use=c.use, observed=obs)
+            case = case_record(ctx, c, a, rc, err_, "use", use=c.use, observed=obs, nofile=getattr(c, "nofile", None))
             if id(c) not in seen_case:
                 seen_case.add(id(c))
                 cov["evaluations"] += 1
@@ -1263,6 +1274,10 @@ def run(ctx):
                 got = ("exit 0" if "term=1" in umod[i].split(" ") else "hang") if umod[i].startswith("ok ") else umod[i]
                 if got != want:
                     ctx.disagreement("opt model vs pdsh -R exec run (settings in use)", "impl `%s` model `%s`" % (want, umod[i]), case)
+                if rc is None and umod[i].startswith("ok ") and "term=1" in umod[i].split(" "):
+                    ctx.offender("hang:in-use", "pdsh does not end on an accepted configuration (%s in use%s): env %s argv %s"
+                                 % (c.use, ", RLIMIT_NOFILE %s" % c.nofile if getattr(c, "nofile", None) else "", c.env, a[:-4] + ["..."]),
+                                 case)
                 if rc is not None and rc < 0:
                     ctx.offender("crash", "pdsh killed by signal %d" % -rc, case)
                 if c.use == "user" and rc == 0 and umod[i].startswith("ok "):
@@ -1276,7 +1291,8 @@ def run(ctx):
             if sp != "ok":
                 for clause in sp.split(" "):
                     what = {"user": "target %s was contacted as user %r" % (host, obs.get(host, "<not contacted>")),
-                            "fanout": "%s commands ran at the same time" % obs.get("peak"),
+                            "fanout": "%s commands ran at the same time%s" % (
+                                obs.get("peak"), " (RLIMIT_NOFILE %s)" % c.nofile if getattr(c, "nofile", None) else ""),
                             "timeout": "%s of %s commands of %s s ran to their end" % (obs.get("ended"), obs.get("started"), TMO_SLEEP)}[c.use]
                     ctx.offender(clause, "setting not in force where it takes effect: clause `%s`: env %s argv %s: %s"
                                  % (clause, c.env, a[:-4] + ["..."], what), dict(case, clause=clause, host=host))
@@ -1361,11 +1377,13 @@ def judge_u2(ctx, real, rank, bits, results, peer, bench, cov, dist, distinct):
     """the connect time-out / the remote pdcp path where they are USED: model (correspondence) and specification (oracle);
     a case that fails is run once more, alone, before anything is said (the connect cases are a matter of seconds)"""
     final = []
+    retries = 0
     for c, r in results:
         for attempt in (0, 1):
             verdicts = judge_u2_case(ctx, real, rank, bits, c, r, peer, bench)
-            if not verdicts or attempt == 1:
+            if not verdicts or attempt == 1 or retries >= 3:      # (many failures at once are not a matter of timing)
                 break
+            retries += 1
             r = optuse.run_connect_case(real, peer, c) if c.use == "connect" else optuse.run_path_case(bench, c, 1000 + len(final))
         for kind, a, b, case in verdicts:
             if kind == "disagreement":
